@@ -3,7 +3,7 @@ from __future__ import annotations
 
 from vf import absval as av
 from vf import sess as S
-from vf.common import Acc, Ctx, NOTICE_OID, norm_msg
+from vf.common import Acc, CpuTimeout, Ctx, NOTICE_OID, cpu_limit, norm_msg
 from vf.gen import corrupt as C
 from vf.gen import values as gv
 from vf.ref import ber, rfc4511
@@ -30,7 +30,7 @@ def shards(tier):
 
 def gates(c, tier):
     out = []
-    for k in ("outcome:messages", "outcome:wait", "outcome:ProtocolError", "part:random", "part:operator", "part:bytesub", "part:truncate", "part:valid-into-history",
+    for k in ("outcome:messages", "outcome:wait", "outcome:ProtocolError", "part:random", "part:operator", "part:bytesub", "part:truncate", "part:valid-into-history", "part:large-bytewise",
               "part:nest", "post-error-receive-refused", "post-error-send-refused", "response:notice-checked", "response:unbind-checked"):
         if c.get(k, 0) == 0:
             out.append(f"never observed: {k}")
@@ -88,9 +88,13 @@ def run_case(role, history, data: bytes, cuts):
         buf = bytearray(ch) if kind else None
         arg = ch if kind == 0 else (buf if kind == 1 else memoryview(buf))
         try:
-            res = sess.receive(arg)
+            with cpu_limit(10):
+                res = sess.receive(arg)
             if buf is not None:
                 buf[:] = b"\xAA" * len(buf)
+        except CpuTimeout:
+            out.append(("no-return-within-cpu-budget", f"receive of a {len(ch)}-byte chunk did not return within 10 CPU-seconds"))
+            break
         except sl.ProtocolError as e:
             obs["outcome:ProtocolError"] = 1
             if sess.state is not S.ST.CLOSED:
@@ -200,6 +204,18 @@ def run_shard(ctx: Ctx, acc: Acc):
                     if r.random() < 0.5:
                         data += rfc4511.encode(gv.g_message(r, gv.SMALL, op=r.choice(gv.OPS), mid=r.choice([1, 2, 3])))
                     do("valid-into-history", role, hist, data, C.g_chunking(r, len(data)))
+    # large well-formed messages (long-form lengths at several levels), byte by byte and in random pieces
+    for j in range(3):
+        r = ctx.rng("big", j)
+        for op in ("SearchResultEntry", "ExtendedRequest", "SearchRequest", "BindResponse"):
+            body = {"SearchResultEntry": ("cn=" + "x" * 200, (("a" * 130, (b"v" * 300, b"w" * 128)),)), "ExtendedRequest": ("1.2.3", b"z" * r.choice([256, 300, 70000])),
+                    "SearchRequest": ("dc=" + "y" * 300, 2, 0, 0, 0, False, ("eq", "cn", b"q" * 256), ("cn",) * 60), "BindResponse": ((0, "", "d" * 400, None), b"s" * 200)}[op]
+            data = rfc4511.encode((op, 1, body, ()))
+            role = "server" if op in rfc4511.REQUESTS else "client"
+            hist = "opened-ops" if op != "BindResponse" else "binding"
+            if len(data) < 2000:
+                do("large-bytewise", role, hist, data, list(range(1, len(data))))
+            do("large-bytewise", role, hist, data, sorted(r.randrange(1, 12) for _ in range(3)))
     # (b) operators at every node of valid messages
     nb = max(1, n // 400)
     for j in range(nb):
